@@ -401,7 +401,12 @@ func (r *bdRunner) observe(result string, target int, existing int) {
 	sh := bdSharedSx(r.copies[0])
 	shs := sh.String()
 	var same []Sx
-	for _, a := range r.copies {
+	for i, a := range r.copies {
+		if r.cfg.rle && len(r.copies) > 16 && i != target && i < existing {
+			// large cases with many copies: only the copy operated on and the new copies are asked
+			same = append(same, B(true))
+			continue
+		}
 		same = append(same, B(bdSharedSx(a).String() == shs))
 	}
 	r.obs = append(r.obs, T("o", T("r", A(result)), T("copies", cs...), sh, T("shsame", same...)))
@@ -1609,7 +1614,7 @@ func scaleStreams(c *Config) {
 		scaleManyFiles(c, 10000+7, true)
 		scaleManyFiles(c, 65536+1, false)
 		scaleManyCopies(c, 1000, 5, true)
-		scaleManyCopies(c, 1000, 3, false)
+		scaleManyCopies(c, 500, 3, false)
 	}
 }
 
